@@ -1556,7 +1556,17 @@ fn resolve_types_and_aliases(
     let mut pass_count = 0usize;
     let max_passes = 100usize; // prevent infinite loops
 
-    while pass_count < max_passes && !(types.is_resolved() && aliases.is_resolved()) {
+    // definitions that are still open; a pass that closes none of them (an unknown
+    // name, a cyclic alias) will not be improved on by the next one, and every
+    // further pass nests the symbol copies of recursive types one level deeper
+    let pending = |types: &Vec<TypeDef>, aliases: &Vec<AliasDef>| {
+        types.iter().filter(|x| !x.is_resolved()).count()
+            + aliases.iter().filter(|x| !x.is_resolved()).count()
+    };
+
+    let mut still_pending = pending(types, aliases);
+
+    while pass_count < max_passes && still_pending > 0 {
         pass_count += 1;
 
         let scope = Rc::get_mut(scope_rc).expect("scope should be unique during resolution");
@@ -1570,6 +1580,14 @@ fn resolve_types_and_aliases(
 
         types_report = types.analyze(Some(scope_rc.clone()));
         aliases_report = aliases.analyze(Some(scope_rc.clone()));
+
+        let now_pending = pending(types, aliases);
+
+        if now_pending >= still_pending {
+            break;
+        }
+
+        still_pending = now_pending;
     }
 
     (types_report, aliases_report)
